@@ -4,6 +4,7 @@ use std::env;
 use vaporetto::{CharacterBoundary, Sentence};
 
 mod c01;
+#[cfg(feature = "tagpred")]
 mod c02;
 mod c03;
 mod c04;
@@ -11,7 +12,9 @@ mod gen;
 mod fmt;
 mod c05;
 mod c07;
+#[cfg(feature = "tagpred")]
 mod c08;
+#[cfg(feature = "tagpred")]
 mod c20;
 #[cfg(feature = "kytea")]
 mod c17;
@@ -40,7 +43,9 @@ fn main() {
         ("c14", "search") => c01::search("c14"),
         ("c01", "replay") | ("c06", "replay") | ("c14", "replay") | ("c13", "replay") => c01::replay(&args[3]),
         ("c13", "dump") => { c01::dump(); None }
+        #[cfg(feature = "tagpred")]
         ("c02", "search") => c02::search(),
+        #[cfg(feature = "tagpred")]
         ("c02", "replay") => c02::replay(&args[3]),
         ("c03", "search") => c03::search(),
         ("c03", "replay") => c03::replay(&args[3]),
@@ -62,7 +67,9 @@ fn main() {
         ("c17", "search") => c17::search(),
         #[cfg(feature = "kytea")]
         ("c17", "replay") => c17::replay(&args[3]),
+        #[cfg(feature = "tagpred")]
         ("c20", "search") => c20::search(),
+        #[cfg(feature = "tagpred")]
         ("c20", "replay") => c20::replay(&args[3]),
         ("c16", "search") => c16::search(),
         ("c16", "replay") => c16::replay(&args[3]),
@@ -70,7 +77,9 @@ fn main() {
         ("c19", "replay") => c19::replay(&args[3]),
         ("c15", "search") => c15::search(),
         ("c15", "replay") => c15::replay(&args[3]),
+        #[cfg(feature = "tagpred")]
         ("c08", "search") => c08::search(),
+        #[cfg(feature = "tagpred")]
         ("c08", "replay") => c08::replay(&args[3]),
         ("c07", "search") => c07::search(),
         ("c07", "replay") => c07::replay(&args[3]),
